@@ -10,6 +10,7 @@
 EXTENDS BigNat, FieldConsts, FiniteSets, TLC
 P(e) == Modulus(e.f)
 KP(e) == Mul(P(e), Pow2(16))                       \* a multiple of p above every representable element (elements < 2^16 p)
+KPP(e) == Mul(Mul(P(e), P(e)), Pow2(40))           \* a multiple of p above every product of two elements
 C(a, b, e, i) == Congr(a, b, P(e), e.qa[i], e.qb[i])        \* i-th congruence of the step uses the i-th pair of hints
 Unch(e, regs) == \A r \in regs : e.post[r] = e.pre[r]
 X(e) == e.pre[e.x]
@@ -25,6 +26,10 @@ OkStep(e) ==
        [] e.op = "add" -> C(Add(X(e), Y(e)), Z(e), e, 1) /\ Unch(e, Others(e, {e.z}))
        [] e.op = "sub" -> C(Add(X(e), Sub(KP(e), Y(e))), Z(e), e, 1) /\ Unch(e, Others(e, {e.z}))
        [] e.op = "neg" -> C(Sub(KP(e), X(e)), Z(e), e, 1) /\ Unch(e, Others(e, {e.z}))
+       [] e.op = "muladd" -> C(Add(Mul(X(e), Y(e)), Mul(e.pre[e.u], e.pre[e.v])), Z(e), e, 1) /\ Unch(e, Others(e, {e.z}))    \* z = x*y + u*v
+       [] e.op = "mulsub" -> C(Add(Mul(X(e), Y(e)), Sub(KPP(e), Mul(e.pre[e.u], e.pre[e.v]))), Z(e), e, 1) /\ Unch(e, Others(e, {e.z}))   \* z = x*y - u*v
+       [] e.op = "fma" -> C(Add(Mul(X(e), Y(e)), e.pre[e.u]), Z(e), e, 1) /\ Unch(e, Others(e, {e.z}))                     \* z = x*y + u
+       [] e.op = "hlf" -> C(Add(Z(e), Z(e)), X(e), e, 1) /\ Unch(e, Others(e, {e.z}))                                       \* z = x/2
        [] e.op = "addsub" ->        \* (x, y) := (x + y, x - y)
             /\ C(Add(X(e), Y(e)), e.post[e.x], e, 1) /\ C(Add(X(e), Sub(KP(e), Y(e))), e.post[e.y], e, 2)
             /\ Unch(e, Others(e, {e.x, e.y}))
@@ -49,7 +54,7 @@ OkStep(e) ==
        [] e.op = "cswap" -> /\ e.post[e.x] = (IF e.b THEN Y(e) ELSE X(e)) /\ e.post[e.y] = (IF e.b THEN X(e) ELSE Y(e))
                             /\ Unch(e, Others(e, {e.x, e.y}))
        [] e.op = "frombytes" ->     \* decoding: either reduces the integer v, or (strict decoders) accepts iff v < p
-            /\ IF e.strict THEN (e.ok = Less(Norm(e.v), P(e))) /\ (e.ok => Eq(Z(e), e.v))
-               ELSE C(e.v, Z(e), e, 1)
+            /\ IF e.strict THEN (e.ok = Less(Norm(e.vint), P(e))) /\ (e.ok => Eq(Z(e), e.vint))
+               ELSE C(e.vint, Z(e), e, 1)
        [] OTHER -> FALSE
 ====
